@@ -289,9 +289,15 @@ def run(prog, rep):
            and any(cc.get("callee") == "sem_open" for (b2, i2, cc) in u.functions[c["callee"]].inlined().calls())]
     for fld, pidx in (("mode", 2), ("init_val", 1)):
         sts_ = [(b, i, n) for (b, i, n) in raw_nw.nodes(elsewhere=True) if n["k"] == "asg" and strip_casts(n["l"])["k"] == "member" and strip_casts(n["l"])["field"] == fld]
-        okp = len(sts_) == 1 and len(pnames) > pidx and root_var(sts_[0][2]["r"]) == pnames[pidx] and strip_casts(sts_[0][2]["r"])["k"] == "ref" and len(crt) == 1 \
+        wide = True
+        if len(sts_) == 1:
+            tl_, tr_ = u.type_of(strip_casts(sts_[0][2]["l"])), u.type_of(strip_casts(sts_[0][2]["r"]))
+            wide = not (tl_ and tr_ and tl_.get("w") and tr_.get("w") and tl_["w"] < tr_["w"])
+        okp = wide and len(sts_) == 1 and len(pnames) > pidx and root_var(sts_[0][2]["r"]) == pnames[pidx] and strip_casts(sts_[0][2]["r"])["k"] == "ref" and len(crt) == 1 \
             and raw_nw.pos_dominates((sts_[0][0].id, sts_[0][1]), (crt[0][0].id, crt[0][1]))
         rep.ob("C06.4", raw_nw, "records:" + fld, okp, "the handle's %s is the caller's argument, stored before the create path runs" % fld if okp else
+               ("line %d: the handle keeps the %s argument in a field narrower than the argument: values above the field's range are stored modulo its width and the semaphore "
+                "is created with another count than the caller gave" % (line(sts_[0][2]), fld)) if not wide else
                "p_semaphore_new does not store its %s argument into the handle before creating the native semaphore: the create path sees %s" % (
                    pnames[pidx] if len(pnames) > pidx else fld, "mode 0 (OPEN) whatever was asked for" if fld == "mode" else "the initial value 0"), sts_[0][2] if sts_ else raw_nw.loc[0])
     # the name buffer holds name + suffix + NUL
@@ -537,6 +543,8 @@ def run(prog, rep):
 RENAME_LOCALS = ['src/psemaphore-posix.c']
 
 SELFTEST = [
+    dict(id="init-val-field-sixteen-bits", file="src/psemaphore-posix.c", expect="C06.4",
+         old="\tpint\t\t\tinit_val;", new="\tpushort\t\t\tinit_val;"),
     dict(id="key-file-not-exclusive", file="src/pipc.c", expect="C06.5",
          old="open (file_name, O_CREAT | O_EXCL | O_RDONLY, 0640)", new="open (file_name, O_CREAT | O_RDONLY, 0640)"),
     dict(id="new-forgets-mode", file="src/psemaphore-posix.c", expect="C06.4",
